@@ -1,5 +1,6 @@
 import Mkts.Proto
 import Mkts.Model.Store
+import Mkts.Model.VStore
 /-!
 Driver for the `store` op: one line = a scenario of API calls against one server instance
 (`store <nowYear> <step> <step> …`, see go/harness/instance.go):
@@ -8,10 +9,10 @@ Driver for the `store` op: one line = a scenario of API calls against one server
   Q:key:startS:startNs:endS:endNs:limit:F|L:cols     query (`-` = absent)
   R                                 abrupt restart (process killed, page cache kept)
   I:key   L   D:key                 get info / list buckets / destroy
-Fixed-length buckets only; a scenario touching a variable-length bucket answers `unsupported`.
+Variable-length buckets use `Mkts.VStore` with the tick functions of `Mkts.Ticks` (`rne`).
 -/
 namespace Mkts.Driver.Store
-open Mkts.Proto Mkts.Store Mkts.Time Mkts.Bytes
+open Mkts.Proto Mkts.Store Mkts.Time Mkts.Bytes Mkts.VStore
 
 structure Col where
   name : String
@@ -24,6 +25,23 @@ structure Bucket where
   isVar : Bool
   cols : List Col
   slots : Slots
+  vslots : VSlots := []
+  /-- variable-length commands flushed since the last restart (replayed again by `R`) -/
+  vpending : List VCmd := []
+  /-- every variable-length row written so far (for the C09 predicate) -/
+  vwritten : List VRow := []
+
+/-- the tick encoder / repaired decoder of the code, with IEEE round-to-nearest-even -/
+def tickFns : TickFns :=
+  { enc := fun ts index ipd => Mkts.Ticks.getIntervalTicks32Bit Mkts.Ticks.rne ts index ipd,
+    dec := fun start ipd ticks =>
+      let d := Mkts.Ticks.getTimeFromTicksFixed Mkts.Ticks.rne start ipd ticks
+      (d.sec, d.nanos) }
+
+def renderVRows (hdr : List String) (rows : List VRow) : String :=
+  if rows.isEmpty then "0[]" else
+  s!"{rows.length}[{",".intercalate hdr}]" ++
+    "+".intercalate (rows.map (fun r => s!"{r.sec},{r.nanos},{bytesToHex r.payload}"))
 
 def typeSize (ty : String) : Option Nat :=
   (Mkts.Extracted.attributeMap.find? (fun e => e.2.1 == ty)).map (fun e => e.2.2)
@@ -104,26 +122,31 @@ def step (bs : List Bucket) (st : String) : Option (List Bucket × String × Opt
     | none => pure (bs, "C=err:timeframe", none, [])
     | some tf =>
       if (find bs key).isSome then pure (bs, "C=err:exists", none, [])
-      else pure (bs ++ [⟨key, tf, rt == "v", cs, []⟩], "C=ok", none, [])
+      else pure (bs ++ [{ key := key, tf := tf, isVar := rt == "v", cols := cs, slots := [] }], "C=ok", none, [])
   | ["W", key, rt, cols, rows] => do
     let (_, tfs, _) ← keyTf key
     let cs ← parseCols cols
     let rws ← parseRows rows
-    if rt == "v" then none else
     match parseTf tfs with
     | none => pure (bs, "W=err:timeframe", none, [])
     | some tf =>
       if rws.isEmpty then pure (bs, "W=err:other", none, []) else
       let b : Bucket := match find bs key with
         | some b => b
-        | none => ⟨key, tf, false, cs, []⟩
-      if b.isVar then none else
+        | none => { key := key, tf := tf, isVar := rt == "v", cols := cs, slots := [] }
+      if b.isVar != (rt == "v") then none else
       if b.cols != cs then
         (if b.cols.length != cs.length || b.cols.map (·.name) != cs.map (·.name) then
           pure (bs, "W=err:colmismatch", none, []) else none)
+      else if b.isVar then
+        let req := rws.map (fun r => (⟨r.1, r.2.1, r.2.2⟩ : VRow))
+        let cmds := VStore.writeRecords tickFns b.tf req
+        let b' := { b with vslots := VStore.applyCmds b.vslots cmds, vpending := b.vpending ++ cmds,
+                           vwritten := b.vwritten ++ req }
+        pure (replace bs b', "W=ok", none, [])
       else
         let req := rws.map (fun r => (⟨r.1, r.2.2⟩ : Row))
-        let b' := { b with slots := applyCmds b.slots (writeRecords b.tf req) }
+        let b' := { b with slots := Store.applyCmds b.slots (Store.writeRecords b.tf req) }
         pure (replace bs b', "W=ok", none, [])
   | ["Q", key, ss, sn, es, en, lim, dir, cols] => do
     let (sym, tfs, ag) ← keyTf key
@@ -135,7 +158,6 @@ def step (bs : List Bucket) (st : String) : Option (List Bucket × String × Opt
       match find bs qkey with
       | none => pure (bs, "Q=err:nofiles", none, if qkey != key then ["tf_rerouted"] else [])
       | some b =>
-        if b.isVar then none else
         let mult := d / b.tf
         let limit ← (if lim == "-" then some none else
           (parseNat lim).map (fun n => if n == 0 then none else some (n * mult.toNat, dir == "F")))
@@ -143,15 +165,40 @@ def step (bs : List Bucket) (st : String) : Option (List Bucket × String × Opt
           start := ss.map (fun s => s * nsPerSec + sn.getD 0),
           stop := es.map (fun s => s * nsPerSec + en.getD 0),
           limit := limit }
-        -- a LAST-direction scan without a limit cannot be asked through this API (limit 0 = none = FIRST)
-        let rows := query b.tf b.slots q
         let want := if cols == "-" then b.cols.map (·.name) else
           (cols.splitOn ",").filter (fun w => b.cols.any (fun c => c.name == w))
+        let rerouted := if qkey != key then ["tf_rerouted"] else []
+        if b.isVar then
+          let rows := VStore.query tickFns b.tf b.vslots q
+          let out := rows.map (fun r => { r with payload := project b.cols want r.payload })
+          let unrestricted := q.start.isNone && q.stop.isNone && q.limit.isNone
+          let vflag := if unrestricted && cols == "-" then
+              (if c09ok b.tf b.vwritten rows then ";V=ok" else ";V=bad") else ""
+          -- the property for ranged / limited queries is relative to the unrestricted result
+          let all := VStore.query tickFns b.tf b.vslots ⟨none, none, none⟩
+          let inr := all.filter (fun r =>
+            (match q.start with | none => true | some st => decide (st ≤ r.ns)) &&
+            (match q.stop with | none => true | some e => decide (r.ns ≤ e)))
+          let lim' := match q.limit with
+            | none => inr | some (n, true) => inr.take n | some (n, false) => takeLast n inr
+          let specTok := if unrestricted then "*" else
+            "Q=" ++ renderVRows want (lim'.map (fun r => { r with payload := project b.cols want r.payload }))
+          let hyps := (if q.limit.isSome && out != lim'.map (fun r => { r with payload := project b.cols want r.payload })
+                        then ["var_limit_counts_intervals"] else []) ++ rerouted
+          pure (bs, "Q=" ++ renderVRows want out ++ vflag, some specTok, hyps)
+        else
+        -- a LAST-direction scan without a limit cannot be asked through this API (limit 0 = none = FIRST)
+        let rows := Store.query b.tf b.slots q
         let out := rows.map (fun r => { r with payload := project b.cols want r.payload })
-        let hyps := (if b.tf == dayNs && b.slots.any (fun kv => kv.1.2 == 0) then ["oneD_jan1"] else []) ++
-                    (if qkey != key then ["tf_rerouted"] else [])
+        let hyps := (if b.tf == dayNs && b.slots.any (fun kv => kv.1.2 == 0) then ["oneD_jan1"] else []) ++ rerouted
         pure (bs, "Q=" ++ renderRows want out, none, hyps)
-  | ["R"] => if bs.any (·.isVar) then none else pure (bs, "R=ok", none, [])
+  | ["R"] =>
+    -- abrupt restart: the old WAL is replayed in full (no checkpoint was taken in this mode):
+    -- idempotent for fixed-length files, appends AGAIN for variable-length ones
+    let dup := bs.any (fun b => b.isVar && !b.vpending.isEmpty)
+    let bs' := bs.map (fun b => if b.isVar then
+      { b with vslots := VStore.applyCmds b.vslots b.vpending, vpending := [] } else b)
+    pure (bs', "R=ok", none, if dup then ["var_replay_duplicates"] else [])
   | ["I", key] =>
     match find bs key with
     | none => pure (bs, "I=err:nokey", none, [])
@@ -168,12 +215,13 @@ def step (bs : List Bucket) (st : String) : Option (List Bucket × String × Opt
     | some _ => pure (bs.filter (fun b => b.key != key), "D=ok", none, [])
   | _ => none
 
-def runSteps : List Bucket → List String → List String → List String → Option (List String × List String)
-  | _, [], out, hy => some (out.reverse, hy)
-  | bs, st :: rest, out, hy =>
+def runSteps : List Bucket → List String → List String → List (Option String) → List String →
+    Option (List String × List (Option String) × List String)
+  | _, [], out, ov, hy => some (out.reverse, ov.reverse, hy)
+  | bs, st :: rest, out, ov, hy =>
     match step bs st with
     | none => none
-    | some (bs', r, _, h) => runSteps bs' rest (r :: out) (hy ++ h)
+    | some (bs', r, o, h) => runSteps bs' rest (r :: out) (o :: ov) (hy ++ h)
 
 /-- the property-level expectation (C08/C11/C12/C13) for the same scenario: every bucket is the
     last-writer-wins map of ALL rows written to it so far; a query returns the rows of that map
@@ -230,26 +278,32 @@ def specStep (bs : List SpecBucket) (st : String) : Option (List SpecBucket × O
   | ["D", key] => pure (bs.filter (·.key != key), none)
   | _ => pure (bs, none)
 
-def runSpec : List SpecBucket → List String → List String → List String → Option (List String)
+def runSpec : List SpecBucket → List String → List (String × Option String) → List String → Option (List String)
   | _, [], [], out => some out.reverse
   | _, [], _ :: _, out => some out.reverse
   | _, _ :: _, [], out => some out.reverse
-  | bs, st :: rest, m :: ms, out =>
+  | bs, st :: rest, (m, ov) :: ms, out =>
     match specStep bs st with
     | none => none
-    | some (bs', s) => runSpec bs' rest ms ((s.getD m) :: out)
+    | some (bs', s) =>
+      -- a spec computed by the model side (variable-length buckets) takes precedence
+      let tok := match ov with | some o => o | none => s.getD m
+      runSpec bs' rest ms (tok :: out)
 
 def storeOp : Op := fun args =>
   match args with
   | [] => badArgs
   | _ :: steps =>
-    match runSteps [] steps [] [] with
+    match runSteps [] steps [] [] [] with
     | none => "M:unsupported"
-    | some (out, hy) =>
+    | some (out, ov, hy) =>
       let m := " ".intercalate out
-      match runSpec [] steps out [] with
+      match runSpec [] steps (out.zip ov) [] with
       | none => s!"M:{m}"
-      | some sp => s!"M:{m}\tS:{" ".intercalate sp}\tH:{",".intercalate hy.eraseDups}"
+      | some sp =>
+        -- `@` = token-wise spec with `*` wildcards (and no `V=bad` verdict anywhere in the line)
+        let pre := if sp.any (· == "*") then "@" else ""
+        s!"M:{m}\tS:{pre}{" ".intercalate sp}\tH:{",".intercalate hy.eraseDups}"
 
 def ops : OpTable := [("store", storeOp)]
 
